@@ -1177,12 +1177,24 @@ static IMPORTED_DLL* pe_parse_imports(PE* pe)
 
       if (imported_dll != NULL)
       {
+        // An entry without its name is useless (and the name is assumed to be
+        // non-NULL everywhere), so get the name first.
+        imported_dll->name = yr_strdup(dll_name);
+
+        if (imported_dll->name == NULL)
+        {
+          yr_free(imported_dll);
+          imported_dll = NULL;
+        }
+      }
+
+      if (imported_dll != NULL)
+      {
         IMPORT_FUNCTION* functions = pe_parse_import_descriptor(
             pe, imports, dll_name, &num_function_imports);
 
         if (functions != NULL)
         {
-          imported_dll->name = yr_strdup(dll_name);
           imported_dll->functions = functions;
           imported_dll->next = NULL;
 
@@ -1197,6 +1209,7 @@ static IMPORTED_DLL* pe_parse_imports(PE* pe)
         }
         else
         {
+          yr_free(imported_dll->name);
           yr_free(imported_dll);
         }
       }
